@@ -27,6 +27,8 @@ def run(ctx: Ctx) -> None:
     from ..rules import effects as _eff
     _eff.rule_weighted_fidelity(ctx)
     _eff.rule_pauli_tags(ctx)
+    from .c17 import rule_metric_value
+    rule_metric_value(ctx)  # Infidelity.evaluate: 1 - F, and the representation literals of its dispatch
     from .c07 import rule_wrappers
     rule_wrappers(ctx)  # the mixed-stabilizer gate methods are what a noisy simulation runs; they must agree with the pure ones
     from ..rules import memo as _memo
